@@ -1,8 +1,9 @@
 """C05 — Errors in match components are handled exactly as the error policy says."""
 from core import run_cases
 
-MODULES = ["Props.C05"]
-THEOREMS = ["Props.C05.c05_policy", "Props.C05.c05_override", "Props.C05.c05_validation_tokens"]
+MODULES = ["Props.C05", "Props.C05Tie"]
+THEOREMS = ["Props.C05.c05_policy", "Props.C05.c05_override", "Props.C05.c05_validation_tokens",
+            "Props.C05Tie.policy_words"]
 
 
 def run(check, tier):
